@@ -108,7 +108,7 @@ def run(ctx):
     ctx.sample({"bclass": "damaged", "body": next(iter(reqgen.damaged(reqgen.CORPUS[0][:30] + "...")))})
 
     # 3. batches and singles by composition
-    for i in range(ctx.pick(1500, 120000)):
+    for i in range(ctx.pick(6000, 120000)):
         cfg = rng.choice(keys)
         kinds = [rng.choice(reqgen.ALL_KINDS) for _ in range(rng.randint(1, 6))]
         entries = [reqgen.entry_of(k, rng) for k in kinds]
@@ -126,7 +126,7 @@ def run(ctx):
         for cfg in keys:
             if ctx.mine(i):
                 check_body(ctx, fxs[cfg], cfg, t, "top")
-    for i in range(ctx.pick(2500, 200000)):
+    for i in range(ctx.pick(10000, 200000)):
         cfg = rng.choice(keys)
         check_body(ctx, fxs[cfg], cfg, reqgen.random_text(rng), "text")
 
@@ -213,7 +213,7 @@ def termination(ctx, rng):
 def http_sample(ctx, rng):
     from vf import servers
     bodies = []
-    for _ in range(ctx.pick(60, 2500)):
+    for _ in range(ctx.pick(200, 2500)):
         r = rng.random()
         if r < 0.3:
             bodies.append(json.dumps(reqgen.matrix_entry(rng.randrange(reqgen.matrix_size()))))
